@@ -291,6 +291,36 @@ func runC13(r *Report, tier string) {
 				return true
 			}
 		}
+		// the same test written inline as a comma-ok type assertion on the value
+		asserted := func(t string) (*Term, bool) {
+			ta := &Term{Op: "typeassert", S: t + ",ok", Args: []*Term{V}}
+			return &Term{Op: "res", S: "0", Args: []*Term{ta}}, ep.has(Fact{&Term{Op: "res", S: "1", Args: []*Term{ta}}, true})
+		}
+		switch class {
+		case "tstr":
+			_, ok := asserted("string")
+			return ok
+		case "bstr":
+			v, ok := asserted("[]byte")
+			return ok && ep.has(Fact{tEq(v, tNil()), false})
+		case "int":
+			for _, k := range append(append([]string{}, signedKinds...), unsignedKinds...) {
+				if _, ok := asserted(k); ok {
+					return true
+				}
+			}
+		case "uint":
+			for _, k := range unsignedKinds {
+				if _, ok := asserted(k); ok {
+					return true
+				}
+			}
+			for _, k := range signedKinds {
+				if v, ok := asserted(k); ok && ep.has(Fact{tLt(v, tInt(0)), false}) {
+					return true
+				}
+			}
+		}
 		return false
 	}
 	typeIs := func(ep *entryPath, t string) bool {
@@ -313,18 +343,27 @@ func runC13(r *Report, tier string) {
 		return false
 	}
 	tstrRules := func(ep *entryPath) string {
-		S := &Term{Op: "typeassert", S: "string", Args: []*Term{V}}
 		fs := factSet{}
 		for _, c := range ep.conds {
 			fs.add(c)
 		}
-		miss, _ := fs.firstMissing([]factPat{
-			fp("!binop<==>(0, len(%S))"),
-			fp("!binop<==>(index(%S, 0), 32)"),
-			fp("!binop<==>(index(%S, binop<->(len(%S), 1)), 32)"),
-			fp("binop<==>(call<strings.Count>(%S, \"/\"), 1)"),
-		}, bindings{"S": S})
-		return miss
+		last := ""
+		// the text is the bare assertion value.(string) or the value of a comma-ok assertion
+		for _, S := range []*Term{{Op: "typeassert", S: "string", Args: []*Term{V}}, {Op: "res", S: "0", Args: []*Term{{Op: "typeassert", S: "string,ok", Args: []*Term{V}}}}} {
+			miss, _ := fs.firstMissing([]factPat{
+				fp("!binop<==>(index(%S, 0), 32)"),
+				fp("!binop<==>(index(%S, binop<->(len(%S), 1)), 32)"),
+				fp("binop<==>(call<strings.Count>(%S, \"/\"), 1)"),
+			}, bindings{"S": S})
+			if miss == "" && !fs.holdsNonEmpty(S) {
+				miss = "the non-empty test"
+			}
+			if miss == "" {
+				return ""
+			}
+			last = miss
+		}
+		return last
 	}
 	type cell struct {
 		label int64
@@ -594,7 +633,7 @@ func checkBucketEncoders(r *Report, rule string) {
 			}
 			np++
 			o := r.ob(rule, shortFn(enc)+":path:"+pathID(p), enc, p.ret, "bucket encoder: empty header, or ok(validator(h, "+tn.flag+"))")
-			empty := len(fs.matchAll([]factPat{fp("binop<==>(0, len($0))")}, nil)) > 0
+			empty := fs.holdsEmpty(T0())
 			okv := len(fs.matchAll([]factPat{fp(okp("call<" + shortFn(val) + ">($0, " + tn.flag + ")"))}, nil)) > 0
 			o.check(empty || okv, fmt.Sprintf("empty:%v validated:%v", empty, okv), "a non-empty header can be encoded without ok("+shortFn(val)+"(h, "+tn.flag+"))")
 		}
